@@ -623,6 +623,10 @@ def oracle_search(inp):
                    "and NaN ratio (the endpoint's optimiser wrapper then raises AssertionError)")
       return f
     return fail(kind, "densities finite and ratio in (0, 1/gamma]", inp, dict(gamma=g, lpdf=out["lpdf"], gpdf=out["gpdf"], ei=out["ei"]), None, txt)
+  # the ratio the search variant scores with is the documented one for the gamma and the two densities of THIS estimator
+  er = 1.0 / (g + (1.0 - g) * out["gpdf"] / out["lpdf"])
+  if abs(out["ei"] - er) > 1e-10 * max(abs(er), 1e-300):
+    return fail(kind, "ratio equals 1/(gamma + (1-gamma) greater/lower) for the gamma of the search split", inp, out["ei"], er, txt)
   return None
 
 
